@@ -11,9 +11,9 @@
    C18:New:child-detached (a detached node below the new node shares the id of one of its ancestors there),
    C18:Attach:content-id (a stale cached content_id on a detached node that is being re-attached) and the
    inadmissible inputs (one node object at two positions).  History level: Inv2 holds in every state of every
-   history made of such guarded steps (C18_inv_history_partial); replace() and replace_with(None) are covered for a
-   receiver without a parent only.  NOT covered: replace / replace_with of a node that has a parent,
-   replace_with(node), the two transformation classes (where most findings live), and the rejections raised while
+   history made of such guarded steps (C18_inv_history_partial); replace() and replace_with(None / detached node) are
+   covered for a receiver without a parent only.  NOT covered: replace / replace_with of a node that has a parent,
+   replace_with(attached node), the two transformation classes (where most findings live), and the rejections raised while
    attaching (C19).
    Every theorem about the invariant is therefore `_partial`.  See design.d/C18.md. *)
 From Oak Require Import Spec.LegacySpec Proofs.LegacyProofs Proofs.LegacyInv.
@@ -94,7 +94,8 @@ Proof. exact replace_with_own_parent_diverges. Qed.
 (* ====================================================================================================== *)
 (* Round 2: the strengthened invariant Inv2 (Spec/LegacySpec2.v) and the guarded step / history theorems   *)
 (* ====================================================================================================== *)
-From Oak Require Import Spec.LegacySpec2 Proofs.LegacyHistory Proofs.LegacyStep Proofs.LegacyExamples.
+From Oak Require Import Spec.LegacySpec2 Proofs.LegacyHistory Proofs.LegacyReplace Proofs.LegacyStep Proofs.LegacyQueries2
+  Proofs.LegacyExamples.
 
 (* 1. Inv2 = RegOk /\ Rank (child addresses are smaller than their parent's: acyclicity, makes the fuel of
       tree_cid irrelevant) /\ PidOk (no dead stored parent id) /\ LInv: holds initially, implies Inv *)
@@ -185,6 +186,26 @@ Proof. exact inv2_step_replace_root_form. Qed.
 Theorem C18_inv_step_replace_with_none_root_partial : forall H ct s a s',
   Inv2 H ct s -> parent s a = None -> step H ct s (OReplaceWith a None) = (s', RNone) -> Inv2 H ct s'.
 Proof. exact inv2_step_replace_with_none_root. Qed.
+(*    replace_with(node) on a parent-less receiver, the node being detached once the receiver has been detached:
+      detach() + the id flip (node.original_id = node.id; node.id = receiver.id) on the detached node + attach.
+      The guard of attach is read on the state in which the node already carries the receiver's id: it excludes
+      findings C18:ReplaceWith:child-detached (the receiver sits inside the node) and C18:ReplaceWith:content-id.
+      An ATTACHED node argument (popped from the registry before the flip, leaving its children with a dead parent
+      id until the re-attach) is not covered. *)
+Theorem C18_inv_step_replace_with_root_partial : forall H ct s a n s',
+  Inv2 H ct s -> parent s a = None ->
+  step H ct s (OReplaceWith a (Some n)) = (s', RNone) ->
+  detached (fst (step H ct s (ODetach a))) n = true ->
+  att_guard H ct (fst (flip_ids (fst (step H ct s (ODetach a))) a n)) n ->
+  Inv2 H ct s'.
+Proof. exact inv2_step_replace_with_root. Qed.
+Example C18_inv_step_replace_with_root_example :
+  Inv2 Hid ct0 x_s10 /\ parent x_s10 5 = None /\ detached x_s10 5 = false /\
+  detached (fst (step Hid ct0 x_s10 (ODetach 5))) 3 = true /\
+  att_guard Hid ct0 (fst (flip_ids (fst (step Hid ct0 x_s10 (ODetach 5))) 5 3)) 3 /\
+  step Hid ct0 x_s10 x_o11 = (x_s11, RNone) /\
+  detached x_s11 5 = true /\ detached x_s11 3 = false /\ parent x_s11 2 = Some 3 /\ id_of x_s11 3 = id_of x_s10 5.
+Proof. exact x_example_replace_with. Qed.
 Example C18_inv_step_replace_root_example :
   Inv2 Hid ct0 x_s8 /\ parent x_s8 1 = None /\ detached x_s8 1 = false /\
   step Hid ct0 x_s8 x_o9 = (x_s9, RNode 5) /\
@@ -196,9 +217,9 @@ Proof. exact x_example_replace. Qed.
 
 (* 6. histories: every state of a history whose steps are all covered (step_guard: the operations above with their
       guards and outcomes; a call that does not return leaves the state as it is) satisfies Inv2, hence Inv.
-      Covered besides the above: replace() / replace_with(None) of a parent-less receiver, and their rejections
-      ASTNodeReplaceError / ASTNodeReplaceWithError (state unchanged).
-      Missing for C18 itself: replace / replace_with(None) of a node that has a parent, replace_with(node),
+      Covered besides the above: replace() / replace_with(None) / replace_with(detached node) of a parent-less
+      receiver, and the rejections ASTNodeReplaceError / ASTNodeReplaceWithError-of-replace_with(None) (state unchanged).
+      Missing for C18 itself: replace / replace_with of a node that has a parent, replace_with(attached node),
       ASTTransformVisitor, ASTTransformer, and the steps rejected while attaching - a history containing one of them
       is not `guarded`. *)
 Theorem C18_inv_step_partial : forall H ct s o s' ob,
@@ -216,3 +237,16 @@ Example C18_inv_history_example :
   guarded Hid ct0 empty_st x_ops /\ List.length (trace Hid ct0 empty_st x_ops) = 9 /\
   List.length (heap x_s8) = 5 /\ detached x_s8 1 = false /\ parent x_s8 0 = Some 1 /\ parent x_s8 2 = Some 3.
 Proof. exact x_example_history. Qed.
+
+(* 7. the upward queries under Inv2: ancestors() of an attached node returns (the fuel |heap|+1 is enough: the real
+      call terminates), it is the chain of .parent links, every node of it is attached and holds the receiver in its
+      stored subtree, and get_depth() is its length.  (is_ancestor stays refuted: it compares with ==.) *)
+Theorem C18_queries_total_partial : forall H ct s a,
+  Inv2 H ct s -> live s a -> attached s a ->
+  exists l, ancestors (fuel_of s) s a = Some l /\ chain_up s a l /\ get_depth s a = Some (List.length l) /\
+            forall x, In x l -> attached s x /\ live s x /\ reach s x a.
+Proof. exact queries_total. Qed.
+Example C18_queries_total_example :
+  Inv2 Hid ct0 x_s3 /\ live x_s3 0 /\ attached x_s3 0 /\ ancestors (fuel_of x_s3) x_s3 0 = Some [1] /\
+  get_depth x_s3 0 = Some 1.
+Proof. exact x_example_queries. Qed.
